@@ -236,6 +236,26 @@ func opEnc(w *World, s *Step) (string, string) {
 		w.stats.inc("iv_freshness_checked")
 	}
 	st.ivs[iv] = true
+	// the IV must carry the randomness it was drawn with: complementing single served octets must change the IV
+	// for at least 16 different octet positions (128 bits), whichever of the served octets the library uses for it
+	if plainStream && w.step%4 == 0 && res.RandSt.total <= 80 && w.pendingExpand == nil {
+		dep := 0
+		for j := 1; j <= res.RandSt.total; j++ {
+			sc := RandScript{Seed: 3}
+			if s.Rand != nil {
+				sc = *s.Rand
+			}
+			sc.FlipAt = j
+			ct2, r2 := encrypt(c, s.Data, &sc)
+			if r2.class() == "ok" && len(ct2) >= 16 && !bytes.Equal(ct2[:16], ct[:16]) {
+				dep++
+			}
+		}
+		if dep < 16 {
+			w.violate("iv_depends_on_too_few_random_octets", what, "of the %d octets drawn from the random source only %d influence the IV (an IV with 128 bits of randomness needs 16)", res.RandSt.total, dep)
+		}
+		w.stats.inc("iv_dependency_on_random_stream_checked")
+	}
 	// inverse on the same object (history: possibly after failed calls)
 	pt2, dres := decrypt(c, ct)
 	if dres.class() != "ok" || !bytes.Equal(pt2, s.Data) {
